@@ -36,7 +36,7 @@ DatasetsBucket(n) == {[j \in 1..n |-> Ev(j, ts[j], XI(1), GS("k1"))] : ts \in Se
    harness substitutes other members and other spellings of the same number).  Every value is a string or absent. *)
 XDomNumStr == {XNS(1140, "1.14"), XNS(1360, "1.36"), XNS(100, "0.1"), XNS(2675, "2.675"), XNS(2000, "2"), XT("-"), XT("e5"), XAbs}
 DatasetsNumStr3 == DatasetsAgg(3, XDomNumStr)
-DatasetsNumStr4s == DatasetsAgg(4, XDomNumStr \ {XNS(100, "0.1"), XNS(2000, "2")})
+DatasetsNumStr4s == DatasetsAgg(4, XDomNumStr \ {XNS(100, "0.1"), XNS(2000, "2"), XT("e5")})
 DatasetsAgg3 == DatasetsAgg(3, XDom)
 DatasetsAgg4 == DatasetsAgg(4, XDom)
 DatasetsAgg5s == DatasetsAgg(5, XDomSmall)
